@@ -345,9 +345,26 @@ pub fn panic_message(p: Box<dyn std::any::Any + Send>) -> String {
     }
 }
 
+thread_local! {
+    static GUARDED: std::cell::Cell<bool> = const { std::cell::Cell::new(false) };
+}
+
 /// Runs `f`, turning a panic into a value.
 pub fn guarded<T>(f: impl FnOnce() -> T) -> Result<T, String> {
-    catch_unwind(AssertUnwindSafe(f)).map_err(panic_message)
+    let prev = GUARDED.with(|g| g.replace(true));
+    let r = catch_unwind(AssertUnwindSafe(f)).map_err(panic_message);
+    GUARDED.with(|g| g.set(prev));
+    r
+}
+
+/// Panic hook for harness processes: panics of the code under test inside `guarded` are values and stay
+/// silent; a panic anywhere else is a harness bug and must be seen.
+pub fn install_quiet_panic_hook() {
+    std::panic::set_hook(Box::new(|info| {
+        if !GUARDED.with(|g| g.get()) {
+            eprintln!("PANIC-IN-HARNESS {}", info);
+        }
+    }));
 }
 
 /// The key a `build()` result may depend on, by C10: the set of distinct test cases and the settings.
